@@ -669,7 +669,8 @@ func reachedHashCheck(err error) bool {
 type adversary struct {
 	honest *fixture
 	other  *fixture
-	script []int // per call: 0 honest, 1 error, 2 mutated, 3 answer of the other tree, 4 answer for another key
+	script []int // per call: 0 honest, 1 error, 2 mutated, 3 answer of the other tree, 4 valid answer to ANOTHER question
+	decoys [][]byte
 	calls  int
 	t      *rapid.T
 	log    *[]string
@@ -702,6 +703,14 @@ func (a *adversary) respond(mode int, honest func(f *fixture) (*syncer.ProofResp
 			rsp.Proof.UntrustedRoot = a.honest.root.Hash
 		}
 		return rsp, nil
+	}
+	if mode == 4 && len(a.decoys) > 0 {
+		// a perfectly valid proof under the trusted root - of something else: the honest answer to a Get of a decoy key,
+		// anchored at the root (a replayed / stale response). It verifies, but does not contain what was asked for.
+		a.bad++
+		k := a.decoys[a.calls%len(a.decoys)]
+		*a.log = append(*a.log, fmt.Sprintf("  peer: valid root-anchored proof for decoy key %x", k))
+		return a.honest.srv.SyncGet(ctx, &syncer.GetRequest{Tree: syncer.TreeID{Root: a.honest.root, Position: a.honest.root.Hash}, Key: k, ProofVersion: uint16(a.calls % 2)})
 	}
 	rsp, err := honest(a.honest)
 	if err != nil || mode == 0 {
@@ -793,7 +802,7 @@ func (a *adversary) SyncIterate(_ context.Context, r *syncer.IterateRequest) (*s
 }
 
 const ruleRemote = "case = committed tree + a reader created with only the trusted root (mkvs.NewWithRoot(peer, nil, root, Capacity(generated incl. tiny))) reading through an adversarial ReadSyncer that per call is honest, returns an error, " +
-	"returns a mutated proof, or returns an answer taken from a tree differing in one key/value (optionally relabelled with the trusted root), following a generated script; reader operations: Get, iterator Seek+Next, full scan, PrefetchPrefixes; " +
+	"returns a mutated proof, returns an answer taken from a tree differing in one key/value (optionally relabelled with the trusted root), or returns a VALID root-anchored proof that answers another question (replayed response for a decoy key), following a generated script; reader operations: Get, iterator Seek+Next, full scan, PrefetchPrefixes; " +
 	"oracle: every operation returns the full replica's answer or an error - never a wrong value, a wrong absence, or a wrong/short iteration without error; after the script is exhausted (peer honest) every key reads correctly (no poisoned cache). " +
 	"non-trivial = script with >=1 corrupt response that was actually consumed, followed by >=1 honest one; distinct = hash of contents, script and operations"
 
@@ -821,9 +830,12 @@ func TestC04RemoteReader(t *testing.T) {
 		f2 := build(t, uni, m2, "badger")
 		defer f2.close()
 		adv := &adversary{honest: f, other: f2, t: t, log: &trace}
+		for i, nd := 0, rapid.IntRange(1, 3).Draw(t, "ndecoys"); i < nd; i++ {
+			adv.decoys = append(adv.decoys, uni[rapid.IntRange(0, len(uni)-1).Draw(t, "decoy")])
+		}
 		ns := rapid.IntRange(0, 12).Draw(t, "nscript")
 		for i := 0; i < ns; i++ {
-			adv.script = append(adv.script, rapid.SampledFrom([]int{0, 0, 0, 1, 2, 2, 3, 3}).Draw(t, "mode"))
+			adv.script = append(adv.script, rapid.SampledFrom([]int{0, 0, 0, 1, 2, 2, 3, 3, 4, 4}).Draw(t, "mode"))
 		}
 		// A node capacity smaller than what one remote merge brings in gives wrong answers even with an honest
 		// peer (known finding cache-node-capacity-below-path, probe TestC04KFRemoteTinyCache). While that finding is
